@@ -352,6 +352,41 @@ def selection_rule(ctx, fm, R="C05.S"):
     ctx.check(R, "vectorise:mmap_only_when_norm", ok, "mmap path selected only when norm holds (%s)" % detail,
               "vectorise() can reach the fixed-width mmap writer without `norm` (guards: %s)" % detail,
               line_of(calls[0]) if calls else fv.fn["sp"])
+    # the choice is exactly "a named input file AND normalised": evaluated for the four combinations
+    if len(calls) == 1:
+        def ev(t, stdin, norm):
+            if t == SF("norm"):
+                return norm
+            if t[0] == "bin" and t[1] in ("==", "!=") and L("-") in (t[2], t[3]) and SF("in_path") in (t[2], t[3]):
+                return stdin if t[1] == "==" else (not stdin)
+            if t[0] == "un" and t[1] == "!":
+                v = ev(t[2], stdin, norm)
+                return None if v is None else (not v)
+            if t[0] == "bin" and t[1] in ("&&", "||"):
+                a, b = ev(t[2], stdin, norm), ev(t[3], stdin, norm)
+                if a is None or b is None:
+                    return None
+                return (a and b) if t[1] == "&&" else (a or b)
+            if t[0] == "lit" and isinstance(t[1], bool):
+                return t[1]
+            return None
+        bad_combo = None
+        for stdin in (False, True):
+            for norm in (False, True):
+                vals = [ev(t, stdin, norm) for t, p in gs]
+                if any(v is None for v in vals):
+                    bad_combo = ("a condition other than `in_path == \"-\"` / `norm` decides the writer", None)
+                    break
+                reached = all(v == p for v, (t, p) in zip(vals, gs))
+                if reached != ((not stdin) and norm):
+                    bad_combo = ("stdin=%s norm=%s selects the %s writer" % (stdin, norm, "mmap" if reached else "batch"), None)
+            if bad_combo:
+                break
+        ctx.check(R, "vectorise:writer_choice", bad_combo is None,
+                  "the mmap writer is chosen exactly for a named input file with norm (4 combinations evaluated)",
+                  "the writer selection is wrong: %s (guards: %s) — the mapped writer needs a file it can read twice and "
+                  "fixed-width rows; stdin or counts must take the batch writer" % (bad_combo[0] if bad_combo else "", detail),
+                  line_of(calls[0]))
     # only caller
     callers = []
     for v in ctx.all_views():
